@@ -66,3 +66,25 @@ Example C02_cnf_nonvacuous :
   cky [((mkq 1 2 : QcSR), 0, []); (mkq 1 3, 0, [N 1; N 1]); (mkq 1 5, 1, [T 0])] 0 [0; 0] = mkq 1 75.
 Proof. split; vm_compute; reflexivity. Qed.
 Print Assumptions C02_cnf_nonvacuous.
+
+(* Link between the reference semantics and the grammar equations used by the equation-level theorems
+   (C03 derivative, C06 nullary/unary removal, C09 product, C19 substitution): whenever every string
+   weight is a finite (stabilising) derivation sum, the string-weight function solves the equations; in
+   particular for every grammar with a rank function (acyclic dependency graph), and for every value
+   returned by the executable tabulation. *)
+From GV.proofs Require FoldProofs StableSolves.
+Theorem C02_stable_weights_solve_the_equations : forall (S : SR) (G : grammar S) (f : nat -> list nat -> S),
+  (forall X xs, stable S G X xs (f X xs)) -> FoldProofs.solves S G f.
+Proof. intros; apply StableSolves.stable_solves; assumption. Qed.
+Print Assumptions C02_stable_weights_solve_the_equations.
+
+Theorem C02_ranked_grammars : forall (S : SR) (r : nat -> nat) (G : grammar S),
+  StableSolves.ranked S r G ->
+  (forall X xs, stable S G X xs (W G (Datatypes.S (r X)) X xs)) /\
+  FoldProofs.solves S G (fun X xs => W G (Datatypes.S (r X)) X xs).
+Proof.
+  intros S r G Hr. split.
+  - intros X xs. exact (StableSolves.ranked_stable S r G Hr X xs).
+  - exact (StableSolves.ranked_solves S r G Hr).
+Qed.
+Print Assumptions C02_ranked_grammars.
